@@ -3,7 +3,8 @@
 use std::panic::{catch_unwind, AssertUnwindSafe};
 fn main() {
     let args: Vec<String> = std::env::args().collect();
-    if args.len() < 3 { eprintln!("usage: replay <harness> <[[b,..],..]>"); std::process::exit(2); }
+    if args.len() >= 5 && args[1] == "--probe" { probe(&args[2], args[3].parse().unwrap_or(1), args[4].parse().unwrap_or(100)); }
+    if args.len() < 3 { eprintln!("usage: replay <harness> <[[b,..],..]>  |  replay --probe <name prefixes, comma separated> <seed> <iterations>"); std::process::exit(2); }
     let name = &args[1];
     let vals = parse(&args[2]);
     let table = cb_kani::table();
@@ -18,6 +19,40 @@ fn main() {
         (false, true) => { println!("REPLAY: reproduced - expected panic did not happen on the real code"); std::process::exit(0); }
         _ => { println!("REPLAY: not reproduced"); std::process::exit(3); }
     }
+}
+/// Profile probe (bounded sampling, never a proof): run every harness body whose name starts with one of the prefixes on
+/// `iters` generated inputs in THIS build profile; a harness that must panic has to panic, every other must not.
+/// Prints one JSON line per divergence: {"harness":..,"expects_panic":..,"vals":[[..]..]}; exit 0 = none, 1 = some.
+fn probe(prefixes: &str, seed: u64, iters: u64) -> ! {
+    std::panic::set_hook(Box::new(|_| {}));
+    let pre: Vec<&str> = prefixes.split(',').filter(|p| !p.is_empty()).collect();
+    let table = cb_kani::table();
+    let (mut ran, mut skipped, mut bad) = (0u64, 0u64, 0u64);
+    for (name, f, expects_panic) in table.iter() {
+        if !pre.iter().any(|p| name.starts_with(p)) { continue; }
+        let mut reported = false;
+        for it in 0..iters {
+            let mut h = seed.wrapping_mul(0x9E3779B97F4A7C15) ^ (it.wrapping_mul(0xD1B54A32D192ED03));
+            for b in name.bytes() { h = (h ^ b as u64).wrapping_mul(0x100000001B3); }
+            let mut src = cb_kani::ReplaySrc::generator(h);
+            cb_kani::MISSED_PANIC.store(false, std::sync::atomic::Ordering::SeqCst);
+            let r = catch_unwind(AssertUnwindSafe(|| f(&mut src)));
+            if src.assumption_violated { skipped += 1; continue; }
+            let missed = cb_kani::MISSED_PANIC.load(std::sync::atomic::Ordering::SeqCst);
+            // a must-panic harness diverges when the statement that must panic returned; an input outside its
+            // panicking domain (no panic, marker not reached) says nothing. Any other harness must not panic.
+            if *expects_panic && r.is_ok() && !missed { skipped += 1; continue; }
+            ran += 1;
+            let diverges = if *expects_panic { missed } else { r.is_err() };
+            if diverges && !reported {
+                reported = true; bad += 1;
+                let vals: Vec<String> = src.vals.iter().map(|v| format!("[{}]", v.iter().map(|b| b.to_string()).collect::<Vec<_>>().join(","))).collect();
+                println!("{{\"harness\":\"{}\",\"expects_panic\":{},\"vals\":[{}]}}", name, expects_panic, vals.join(","));
+            }
+        }
+    }
+    println!("PROBE ran={} skipped_by_assumption={} divergences={}", ran, skipped, bad);
+    std::process::exit(if bad > 0 { 1 } else { 0 });
 }
 fn parse(s: &str) -> Vec<Vec<u8>> {
     let mut out = Vec::new();
